@@ -38,7 +38,26 @@ def _atoms(c, out):
         out.append(c)
 
 
+def _stars_in(term, ogp, out, seen=None):
+    seen = set() if seen is None else seen
+
+    def f(x):
+        if id(x) in seen:
+            return False
+        seen.add(id(x))
+        if x[0] == 'star':
+            out.append(x)
+        if x[0] == 'acc':
+            for en in ogp.accs[x[1]]['entries']:
+                _stars_in(en['val'], ogp, out, seen)
+                for l in en.get('loops', ()):
+                    out.append(('star', l[1], l[0], ('tuple', []), list(l[2]), False))
+    E.walk(term, f)
+
+
 def _occurs(sub, term, ogp):
+    """`sub` (a sequence whose emptiness is tested) feeds the content `term`: it occurs there, or the content repeats over the same source
+    under at least the same selection - then an empty `sub` means there is nothing to emit"""
     found = [False]
     key = E.alpha_key(sub)
 
@@ -52,7 +71,32 @@ def _occurs(sub, term, ogp):
             for en in ogp.accs[x[1]]['entries']:
                 E.walk(en['val'], f)
     E.walk(term, f)
-    return found[0]
+    if found[0]:
+        return True
+    X = sub
+    while X[0] == 'reorder':
+        X = X[1]
+    cands = []
+    _stars_in(term, ogp, cands)
+    if X[0] == 'acc':
+        # several pushes: the loops they sit in
+        xs = [('star', l[1], l[0], ('tuple', []), list(l[2]), False) for en in ogp.accs[X[1]]['entries'] for l in en.get('loops', ())[:1]]
+    else:
+        xs = [X]
+    for x in xs:
+        if x[0] != 'star':
+            if any(E.alpha_key(y[1]) == E.alpha_key(x) for y in cands):
+                return True
+            continue
+        sx, cx = x[1], [ogp.it.rename_elem(c, x[2], '$e') for c in x[4]]
+        kx = E.alpha_key(sx)
+        for y in cands:
+            if E.alpha_key(y[1]) != kx:
+                continue
+            cy = {E.alpha_key(ogp.it.rename_elem(ogp.it.subst_elem(c, y[2], ('elem', '$e', sx)), y[2], '$e')) for c in y[4]}
+            if all(E.alpha_key(ogp.it.subst_elem(c, '$e', ('elem', '$e', sx))) in cy for c in cx):
+                return True
+    return False
 
 
 def _spine(term, ogp, bad, depth=0):
